@@ -95,3 +95,7 @@ Print Assumptions C04_small_order_table.
 Print Assumptions C04_add_is_the_source.
 Print Assumptions C04_add_general_representatives.
 Print Assumptions C04_mul_loop_is_the_source.
+Print Assumptions C04_add_closed.
+Print Assumptions C04_smul_unfold.
+Print Assumptions C04_mul_closed.
+Print Assumptions C04_mul_additive.
